@@ -311,7 +311,9 @@ def check_property(prop, tier='quick', only=None, verbose=True):
         nat = native_run(hmodname, h['fn'], call_args)
         native_execs += 1
         if nat.get('ok') is False:
-            kf_lines.append('KNOWN-FINDING: property=%s %s' % (prop, k['what']))
+            ln = 'KNOWN-FINDING: property=%s %s' % (prop, k['what'])
+            if ln not in kf_lines:
+                kf_lines.append(ln)
         elif nat.get('ok') is True:
             kf_lines.append('NOTE: known finding no longer reproduces: property=%s %s' % (prop, k['what']))
         else:
